@@ -662,7 +662,7 @@ pub fn run(ctx: &Ctx) -> ! {
          Oracle per input: no panic; peak heap growth <= 4096*len + 1 MiB; Ok(v) => encode(v) == consumed bytes, mls_encoded_len == bytes written, \
          decode(encode(v)) == v. Plus collections whose content length sits on the size-header boundaries (63/64, 16383/16384 bytes) and custom proposals of the reserved types 0-9. Plus every 1- and 2-byte varint form and sampled 4-byte forms against an RFC 9000 reference decoder. Plus the state a member stores \
          (snapshot incl. secret tree with skipped message keys, pending commit, pending updates, cached proposals; prior epochs) taken from generated group histories (hook): reported length == \
-         bytes written, decodes completely, re-encodes to the same length, decoded value equal. \
+         bytes written, decodes completely, re-encodes to the same length, decoded value equal; the pending commit, which the snapshot carries as bytes, decodes completely and re-encodes to exactly those bytes. \
          Non-trivial = input that a decoder ACCEPTED (distinct by target+bytes), arbitrary value encoding to >= 32 bytes (distinct by encoding), accepted varint value.",
     );
     ev.assume("hash-map backed state types (CommitSecrets, ExternalSnapshot) may re-encode with permuted map entries: there equality of length and of the decoded value is required instead of byte equality");
